@@ -813,7 +813,9 @@ class TDS(BaseRoutine):
 
         # if a `custom_event` flag is set (without a specific callback)
         if self.custom_event is True:
-            system.switch_action(system.exist.pflow_tds)
+            # timers of this instant have already been dispatched above; do not dispatch them a second time
+            if ret is False:
+                system.switch_action(system.exist.pflow_tds)
             self._last_switch_t = system.dae.t.tolist()
             system.vars_to_models()
             self.custom_event = False
